@@ -196,6 +196,10 @@ def _run_vc(args):
                 r = solve._check_unsat(list(fmls) + [z3.Not(goal)], timeout_ms=to, crosscheck=crosscheck)
             if r is None:
                 r = solve.check_unsat(list(fmls) + [z3.Not(goal)], timeout_ms=to, crosscheck=crosscheck)
+            if r.status == "sat" and "/structure." in name:
+                # an applicability condition of the sidecar (which sum / scatter / loop the contract is stated over): when it does not
+                # hold, the contract does not apply to this source - undecided (exit 2), not a violation of the property
+                r = solve.Result("unknown", r.backend, r.ms, note="the sidecar's structural expectation does not hold for this source: contract not applicable")
             rec = {"name": name, "status": r.status, "backend": r.backend, "ms": round(r.ms, 1), "kind": kind, "note": r.note}
             if r.status == "sat" and r.model is not None and any(z3.is_string(v) for v in vc.inputs.values() if ip.is_z3(v)):
                 # counterexample over strings: prefer one made of file-name-safe characters, so that it can be replayed natively
